@@ -543,6 +543,129 @@ func TestOperatorGrammars(t *testing.T) {
 	})
 }
 
+// ---------- fixed families whose ambiguity is resolved by directives ----------
+
+// danglingElse: "i" s | "i" s "e" s | "o" with @right "i" "e": the else belongs to the nearest if.
+func parseIf(toks []string, i int) (string, int, bool) {
+	if i >= len(toks) {
+		return "", i, false
+	}
+	switch toks[i] {
+	case "o":
+		return "o", i + 1, true
+	case "i":
+		body, j, ok := parseIf(toks, i+1)
+		if !ok {
+			return "", j, false
+		}
+		if j < len(toks) && toks[j] == "e" {
+			els, k, ok := parseIf(toks, j+1)
+			if !ok {
+				return "", k, false
+			}
+			return "[i " + body + " e " + els + "]", k, true
+		}
+		return "[i " + body + "]", j, true
+	}
+	return "", i, false
+}
+
+// application: juxtaposition is left associative and binds tighter than "+" (left associative).
+func parseApp(toks []string) (string, bool) {
+	i := 0
+	var sum func() (string, bool)
+	primary := func() (string, bool) {
+		if i < len(toks) && toks[i] == "n" {
+			i++
+			return "n", true
+		}
+		if i < len(toks) && toks[i] == "(" {
+			i++
+			x, ok := sum()
+			if !ok || i >= len(toks) || toks[i] != ")" {
+				return "", false
+			}
+			i++
+			return "(" + x + ")", true
+		}
+		return "", false
+	}
+	app := func() (string, bool) {
+		left, ok := primary()
+		if !ok {
+			return "", false
+		}
+		for i < len(toks) && (toks[i] == "n" || toks[i] == "(") {
+			right, ok := primary()
+			if !ok {
+				return "", false
+			}
+			left = "[" + left + " " + right + "]"
+		}
+		return left, true
+	}
+	sum = func() (string, bool) {
+		left, ok := app()
+		if !ok {
+			return "", false
+		}
+		for i < len(toks) && toks[i] == "+" {
+			i++
+			right, ok := app()
+			if !ok {
+				return "", false
+			}
+			left = "[" + left + " + " + right + "]"
+		}
+		return left, true
+	}
+	t, ok := sum()
+	return t, ok && i == len(toks)
+}
+
+func TestDirectiveResolvedFamilies(t *testing.T) {
+	rec.Begin(t)
+	rec.Rule(rule)
+	if rec.Shard() != 0 {
+		t.Skip("seed independent: shard 0 only")
+	}
+	type fam struct {
+		name, src string
+		terms     []string
+		n         int
+		want      func([]string) (string, bool)
+	}
+	fams := []fam{
+		{"dangling_else_resolved", "grammar g;\n@right \"i\" \"e\"\nstart = \"i\" start | \"i\" start \"e\" start | \"o\";\n", []string{"i", "e", "o"}, 8,
+			func(w []string) (string, bool) { s, j, ok := parseIf(w, 0); return s, ok && j == len(w) }},
+		{"juxtaposition_with_rule_handle", "grammar g;\n@left <start = start start>\n@left \"n\" \"(\"\n@left \"+\"\nstart = start start | start \"+\" start | \"(\" start \")\" | \"n\";\n", []string{"n", "+", "(", ")"}, 7, parseApp},
+	}
+	for _, f := range fams {
+		_, T, perr, terr, panicked := build(f.src)
+		rec.Case(f.src, true, "family_"+f.name)
+		rec.Sample("family-"+f.name, f.src)
+		if panicked != nil || perr != nil {
+			rec.Fail(t, "family", input{Kind: "family", Spec: f.src}, "%v %v\nspecification:\n%s", panicked, perr, f.src)
+		}
+		if terr != nil {
+			rec.Fail(t, "family", input{Kind: "family", Spec: f.src}, "every ambiguity of %s is covered by directives, but the grammar is rejected: %v\nspecification:\n%s", f.name, terr, f.src)
+		}
+		for _, w := range ref.AllStrings(f.terms, f.n) {
+			want, ok := f.want(w)
+			acc, got, derr := drive(T, w, renderExpr)
+			if derr != nil {
+				rec.Fail(t, "family", input{Kind: "family", Spec: f.src}, "%v\nspecification:\n%s", derr, f.src)
+			}
+			if acc != ok {
+				rec.Fail(t, "family", input{Kind: "family", Spec: f.src}, "[%s] is a sentence: %v, the table accepts it: %v\nspecification:\n%s", strings.Join(w, " "), ok, acc, f.src)
+			}
+			if acc && got != want {
+				rec.Fail(t, "family", input{Kind: "family", Spec: f.src}, "[%s] is parsed as %s, the directives dictate %s\nspecification:\n%s", strings.Join(w, " "), got, want, f.src)
+			}
+		}
+	}
+}
+
 // ---------- CLI route ----------
 
 func TestCLIRejectsUnresolvedConflicts(t *testing.T) {
